@@ -187,6 +187,8 @@ type knownFinding struct {
 	// if the same clause no longer fails once the transformation has been applied to that very case.
 	Neutralise string `json:"neutralise,omitempty"`
 	ID         string `json:"id,omitempty"`
+	// Features, when set, restricts the finding to cases whose generator drew ALL of these construct classes.
+	Features []string `json:"features,omitempty"`
 }
 
 type knownFile struct {
@@ -216,11 +218,26 @@ func sigMatches(pattern, sig string) bool {
 	return pattern == sig
 }
 
+func featuresMatch(k *knownFinding, c *Case) bool {
+	if len(k.Features) == 0 {
+		return true
+	}
+	if c == nil {
+		return false
+	}
+	for _, f := range k.Features {
+		if !hasFeature(c, f) {
+			return false
+		}
+	}
+	return true
+}
+
 // matchKnown: exact entries only (no counterfactual run needed).
-func matchKnown(known []knownFinding, f Failure) *knownFinding {
+func matchKnown(known []knownFinding, f Failure, c *Case) *knownFinding {
 	for i := range known {
 		k := &known[i]
-		if k.Status == "open" && k.Neutralise == "" && k.Property == f.Property && k.Clause == f.Clause && sigMatches(k.Sig, f.Sig) {
+		if k.Status == "open" && k.Neutralise == "" && k.Property == f.Property && k.Clause == f.Clause && sigMatches(k.Sig, f.Sig) && featuresMatch(k, c) {
 			return k
 		}
 	}
@@ -229,7 +246,7 @@ func matchKnown(known []knownFinding, f Failure) *knownFinding {
 
 // explain attributes a failing case to a known finding, running the counterfactual where the finding asks for it.
 func explain(known []knownFinding, f Failure, c *Case, run *caseRunner) *knownFinding {
-	if k := matchKnown(known, f); k != nil {
+	if k := matchKnown(known, f, c); k != nil {
 		return k
 	}
 	if c == nil {
@@ -237,7 +254,7 @@ func explain(known []knownFinding, f Failure, c *Case, run *caseRunner) *knownFi
 	}
 	for i := range known {
 		k := &known[i]
-		if k.Status != "open" || k.Neutralise == "" || k.Property != f.Property || !(k.Clause == "*" || k.Clause == f.Clause) || !sigMatches(k.Sig, f.Sig) {
+		if k.Status != "open" || k.Neutralise == "" || k.Property != f.Property || !(k.Clause == "*" || k.Clause == f.Clause) || !sigMatches(k.Sig, f.Sig) || !featuresMatch(k, c) {
 			continue
 		}
 		nc, changed := neutralise(k.Neutralise, c)
@@ -454,7 +471,7 @@ func driveMain(args []string) int {
 				agg.mu.Lock()
 				nf := 0
 				for _, fr := range agg.fails {
-					if matchKnown(known, fr.f) == nil {
+					if matchKnown(known, fr.f, fr.c) == nil {
 						nf++
 					}
 				}
